@@ -432,13 +432,13 @@ def run(ctx: Ctx):
     rng = ctx.rng
     replay_findings(ctx, "scoped", sd_impl, sd_holds)
     # ---- exhaustive sweeps
-    wl_pre, wl_tail = (2, 5) if thorough else (1, 4)
+    wl_pre, wl_tail = (2, 4) if thorough else (1, 4)
     sweep_differential(
         ctx, f"worklist-exhaustive-len{wl_pre + wl_tail}", REQ,
         product_shards(wl_ops(), wl_pre, wl_tail, lambda ops: {"univ": WL_UNIV, "ops": ops}, coq_wl_op,
                        lambda pre, n: f"wl_sweep {coq_nats(WL_UNIV)} {pre} {n}%nat"),
         wl_impl, wl_holds, None, wl_nontrivial)
-    sd_pre, sd_tail = (2, 3) if thorough else (1, 3)
+    sd_pre, sd_tail = (1, 4) if thorough else (1, 3)
     sweep_differential(
         ctx, f"scoped-exhaustive-len{sd_pre + sd_tail}", REQ,
         product_shards(sd_ops(), sd_pre, sd_tail, lambda ops: {"ops": ops}, coq_sd_op,
@@ -457,7 +457,9 @@ def run(ctx: Ctx):
                            coq_list(coq_pyval(v) for v in SF_DFS), coq_list(coq_sf_op(o) for o in sf_pre), pre, n)),
         sf_impl, sf_holds, None, sd_nontrivial)
     uf_args, uf_n0 = [0, 1, 2], 2          # element 2 is out of range until the first add()
-    uf_pre, uf_tail = (2, 2) if thorough else (1, 2)
+    uf_pre, uf_tail = (1, 2)
+    if thorough:
+        uf_args, uf_n0 = [0, 1, 2, 3], 3
     sweep_differential(
         ctx, f"unionfind-exhaustive-len{uf_pre + uf_tail}-args{len(uf_args)}", REQ,
         product_shards(uf_ops(uf_args), uf_pre, uf_tail, lambda ops: {"n0": uf_n0, "ops": ops}, coq_uf_op,
